@@ -162,7 +162,7 @@ class Val:
             return (self.kind, tuple(self.comps))
         if self.kind == "TABS":
             return (self.kind, tuple(None if c is None else c.key() for c in self.comps))
-        if self.kind == "TAB":
+        if self.kind in ("TAB", "ARR"):
             return (self.kind, self.size, self.term)
         return (self.kind, self.term)
 
@@ -204,6 +204,9 @@ def classify(ty):
         if e in INT_TYPES:
             return ("V", "Z", e, int(m.group(2)))
         return None
+    m = re.match(r"^std::vector<Eigen::Matrix<([\w ]+), (\d+), 1(?:, [\w, ]+)?>, Eigen::aligned_allocator<.*>>$", ty)
+    if m and m.group(1).strip() in INT_TYPES:
+        return ("ARR", "Z", m.group(1).strip(), int(m.group(2)))
     m = re.match(r"^std::vector<std::vector<(float|double)(?:, std::allocator<\1>)?>(?:, .*)?>$", ty)
     if m:
         return ("TABS", m.group(1))
@@ -244,6 +247,8 @@ class Exec:
         self.depth = 0
         self.partial = False
         self.written = []      # member / parameter locations assigned so far (the outputs)
+        self.wlog = None       # while probing a loop: the locations its condition and body assign
+        self.loops = 0
 
     # ---- names, lets, free variables
     def fresh(self, base):
@@ -273,7 +278,7 @@ class Exec:
         if suffix and base not in self.names:
             self.names[base] = 1          # a new value of a member / parameter never takes the plain name (that of its initial value)
         nm = self.fresh(base)
-        self.lets.append((nm, term))
+        self.lets.append(("let", nm, term))
         return nm
 
     def freevar(self, name, cty):
@@ -357,6 +362,8 @@ class Exec:
     def write(self, loc, val):
         """assignment at statement level: the new value is let-bound (unless we are inside a conditional)"""
         self.mark(loc)
+        if self.wlog is not None and self.root(loc) not in self.wlog:
+            self.wlog.append(self.root(loc))
         sfx = self.root(loc)[0] in ("mem", "par")
         if loc[0] == "idx":
             base = self.read_for_update(loc[1])
@@ -583,6 +590,13 @@ class Exec:
             op = n.get("opcode")
             if op == "*":          # *ptr
                 return self.expr(n["inner"][0])
+            if op in ("++", "--"):
+                loc = self.lvalue(n["inner"][0])
+                old = self.read(loc, type_of(n["inner"][0]))
+                if old.kind != "Z":
+                    raise Unsupported("%s on a %s" % (op, old.kind))
+                self.write(loc, self.arith_result("(%s %s 1)%%Z" % (old.term, "+" if op == "++" else "-"), old.ct))
+                return old if n.get("isPostfix") else self.read(loc, type_of(n["inner"][0]))
             a = self.expr(n["inner"][0]) if op in ("-", "+", "!") else None
             if op == "-":
                 if a.kind == "T":
@@ -827,6 +841,15 @@ class Exec:
                         raise Unsupported("vector conversion %s -> %s" % (v.ct, c[2]))
                     return v
             raise Unsupported("construction of %s" % ty)
+        if c and c[0] == "ARR" and len(args) == 1:
+            k = self.expr(args[0])
+            if k.kind == "ARR":
+                return k                                     # copy / move of the whole array (return ray;)
+            if k.kind == "Z":
+                self.need_dim(c[3])
+                # size() elements, default-constructed (Eigen leaves them uninitialised: arr_new gives the empty list)
+                return Val("ARR", "arr_new", size=k.term, ct=c[2])
+            raise Unsupported("construction of an array from a %s" % k.kind)
         if c and c[0] == "TABS" and len(args) == 1:
             k = self.expr(args[0])
             if k.kind == "Z" and k.conc == self.dim:
@@ -1032,6 +1055,18 @@ class Exec:
             nm, _ = self.callee_name(s)
             if nm == "operator=" and len(s["inner"]) == 3:
                 lhs = self.strip(s["inner"][1])
+                if lhs.get("kind") == "CXXOperatorCallExpr" and self.callee_name(lhs)[0] == "operator[]" and len(lhs["inner"]) == 3:
+                    bt = classify(type_of(self.strip(lhs["inner"][1])))
+                    if bt and bt[0] == "ARR":
+                        aloc = self.lvalue(lhs["inner"][1])
+                        arr = self.read(aloc, type_of(self.strip(lhs["inner"][1])))
+                        idx = self.expr(lhs["inner"][2])
+                        v = self.vec_of(self.expr(s["inner"][2]))
+                        if arr.kind != "ARR" or idx.kind != "Z" or v.kind != "VZ" or v.ct != bt[2]:
+                            raise Unsupported("array element assignment")
+                        self.write(aloc, Val("ARR", self.bind(self.loc_name(aloc), "(arr_set %s %s [%s])" % (arr.term, idx.term, "; ".join(v.comps))),
+                                             size=arr.size, ct=arr.ct))
+                        return
                 # X.array() = expr  /  X = expr
                 if lhs.get("kind") == "CXXMemberCallExpr":
                     cal = self.strip(lhs["inner"][0])
@@ -1241,8 +1276,105 @@ class Exec:
             raise Unsupported("table fill reads the table")
         self.write(tloc, Val("TAB", "(fun %s : Z => %s)" % (var, e.term), size=bound.term))
 
+    def flat(self, loc, v):
+        """[(suffix, term, coq type)] of the scalar pieces of a loop-carried value"""
+        if v.kind == "T":
+            return [("", v.term, "T")]
+        if v.kind == "Z":
+            return [("", v.term, "Z")]
+        if v.kind in ("VT", "VZ"):
+            if any(c is None for c in v.comps):
+                raise Unsupported("loop-carried vector %s with an unset component" % self.loc_name(loc))
+            return [("_%d" % i, c, "T" if v.kind == "VT" else "Z") for i, c in enumerate(v.comps)]
+        if v.kind == "ARR":
+            return [("", v.term, "(Z -> list Z)")]
+        raise Unsupported("loop-carried %s %s" % (v.kind, self.loc_name(loc)))
+
+    def unflat(self, v, names):
+        if v.kind in ("T", "Z"):
+            return Val(v.kind, names[0], ct=v.ct)
+        if v.kind in ("VT", "VZ"):
+            return Val(v.kind, comps=list(names), ct=v.ct)
+        return Val("ARR", names[0], size=v.size, ct=v.ct)
+
     def while_stmt(self, st):
-        raise Unsupported("while loop")
+        """while (c) { body }  ->  a local fix on the fuel; c may have side effects (++n).  None = out of fuel.
+           (fix loop fu b.. := match fu with O => None | S f => [c] if c then [body] loop f b'.. else Some (b after c ..) end) fuel init.."""
+        parts = st.get("inner", [])
+        if len(parts) != 2 or self.pure:
+            raise Unsupported("while statement shape")
+        cond_node, body_node = parts
+        if srcfuns.Fn({"inner": []}).has_kind(body_node, ("BreakStmt", "ContinueStmt", "ReturnStmt", "GotoStmt")):
+            raise Unsupported("break / continue / return in a loop")
+        # pass 1: which locations do the condition and the body assign?
+        saved = (dict(self.store), dict(self.refs), list(self.lets), dict(self.names), list(self.free), set(self.free_names),
+                 list(self.written), self.partial)
+        self.wlog = []
+        self.pure += 1
+        try:
+            self.expr(cond_node)
+            self.stmt(body_node)
+            wlog = self.wlog
+        finally:
+            self.pure -= 1
+            self.wlog = None
+            (self.store, self.refs, self.lets, self.names, self.free, self.free_names, self.written, self.partial) = saved
+        carried = [loc for loc in wlog if loc[0] in ("mem", "par") or loc in self.store]
+        if not carried:
+            raise Unsupported("loop that assigns nothing")
+        # pass 2: run condition and body once on binders
+        self.loops += 1
+        tag = self.loops
+        init, binders, shapes = [], [], []
+        for loc in carried:
+            v = self.read(loc, self.loc_type.get(loc, ""))
+            pieces = self.flat(loc, v)
+            names = []
+            for sfx, term, cty in pieces:
+                b = self.fresh("b_%s%s" % (self.loc_name(loc).lstrip("l_") if False else self.loc_name(loc), sfx))
+                names.append(b)
+                init.append(term)
+                binders.append((b, cty))
+            shapes.append((loc, v, names))
+            self.store[loc] = self.unflat(v, names)
+        outer_lets = self.lets
+
+        def state():
+            out = []
+            for loc, v, _ in shapes:
+                out += [t for _, t, _ in self.flat(loc, self.store[loc])]
+            return out
+        try:
+            self.lets = []
+            c = self.expr(cond_node)
+            if c.kind != "B":
+                raise Unsupported("loop condition of kind %s" % c.kind)
+            cond_lets, after_cond = self.lets, state()
+            self.lets = []
+            self.stmt(body_node)
+            body_lets, after_body = self.lets, state()
+        finally:
+            self.lets = outer_lets
+        if any(k != "let" for k, _, _ in cond_lets + body_lets):
+            raise Unsupported("nested loop")
+
+        def lets_txt(ls):
+            return "".join("let %s := %s in " % (n, t) for _, n, t in ls)
+
+        def tup(xs):
+            return xs[0] if len(xs) == 1 else "(" + ", ".join(xs) + ")"
+        rty = " * ".join(t for _, t in binders)
+        fix = "((fix loop_%d (fu : nat) %s {struct fu} : option (%s) := match fu with O => None | S f => %sif %s then %sloop_%d f %s else Some %s end) fuel %s)" % (
+            tag, " ".join("(%s : %s)" % b for b in binders), rty, lets_txt(cond_lets), c.term, lets_txt(body_lets), tag,
+            " ".join(after_body), tup(after_cond), " ".join(init))
+        outs = []
+        for loc, v, names in shapes:
+            onames = [self.fresh("o_" + n[2:]) for n in names]
+            outs += onames
+            self.store[loc] = self.unflat(v, onames)
+            self.mark(loc)
+        self.lets.append(("bind", tup(outs), fix))
+        self.partial = True
 
     # ---- running one method and printing it
     def run(self, cls, decl):
@@ -1302,6 +1434,8 @@ def out_term(v):
         if any(c is None for c in v.comps):
             raise Unsupported("output vector with an unset component")
         return "[%s]" % "; ".join(v.comps), "list T" if v.kind == "VT" else "list Z"
+    if v.kind == "ARR":
+        return "(%s, %s)" % (v.size, v.term), "(Z * (Z -> list Z))"
     if v.kind == "TABS":
         items = []
         for t in v.comps:
@@ -1334,11 +1468,18 @@ def translate(tus, cls, name, scalar, dim, coq_name, nargs=None, first_param=Non
     rty = " * ".join(t if " " not in t else "(%s)" % t for _, t in terms)
     if len(terms) > 1:
         rty = "(%s)%%type" % rty
-    body = "".join("  let %s := %s in\n" % (n, t) for n, t in ex.lets)
+    body, closing = "", ""
+    for kind, n, t in ex.lets:
+        if kind == "let":
+            body += "  let %s := %s in\n" % (n, t)
+        else:
+            body += "  match %s with None => None | Some %s =>\n" % (t, n)
+            closing += " end"
     res = terms[0][0] if len(terms) == 1 else "(%s)" % ", ".join(t for t, _ in terms)
     if ex.partial:
         params = "(fuel : nat) " + params
         rty = "option " + rty
+        res = "Some " + res + closing
     text = "Definition %s %s : %s :=\n%s  %s." % (coq_name, params, rty, body, res)
     comment = "free variables: %s;  outputs: %s" % (", ".join(n for n, _ in free) or "-", ", ".join(n for n, _ in outs))
     return text, comment
